@@ -40,7 +40,7 @@ PLANS = {
                 what="trrel provider: history-interpreter programs, every access pattern inside the recursive SCC and in later strata"),
     "C12": dict(tags={"ds12"}, variants=["ser"], cap={"quick": 500, "thorough": 4000}, random={"quick": 80, "thorough": 600},
                 what="trrel_uf provider: history-interpreter programs, every access pattern inside the recursive SCC and in later strata"),
-    "C09": dict(tags={"pack"}, variants=["ser", "run", "mrt", "gen", "src0", "src1", "src2", "srcto", "redecl", "init", "to",
+    "C09": dict(tags={"pack"}, variants=["ser", "run", "mrt", "gen", "src0", "src1", "src2", "srcto", "srcred", "redecl", "init", "to",
                                          "runpar", "srcpar"],
                 cap={"quick": 50, "thorough": 400}, what="packaging variants of one logical program"),
 }
